@@ -153,12 +153,18 @@ func (e *Engine) VerifyFunc(t unitTarget) *Unit {
 		}
 	}
 	i := 0
+	var paramObjList []*types.Var
 	for _, f := range ftype.Params.List {
 		names := f.Names
 		if len(names) == 0 {
 			names = []*ast.Ident{nil}
 		}
 		for _, n := range names {
+			var pobj *types.Var
+			if n != nil && n.Name != "_" {
+				pobj, _ = info.Defs[n].(*types.Var)
+			}
+			paramObjList = append(paramObjList, pobj)
 			pt := sig.Params().At(i).Type()
 			nm := fmt.Sprintf("p%d", i)
 			if n != nil {
@@ -223,6 +229,25 @@ func (e *Engine) VerifyFunc(t unitTarget) *Unit {
 			for k, v := range c.bindHeader(t.spec, recvVal, paramVals) {
 				c.binds[k] = v
 				c.headerNames[k] = true
+			}
+			// header name -> the real parameter variable (same position): inside
+			// the body (loop invariants, ghost statements) a parameter name means
+			// the variable's CURRENT value; in requires/ensures its entry value
+			c.headerObj = map[string]*types.Var{}
+			if h := t.spec.Header; h != nil && h.Type.Params != nil {
+				j := 0
+				for _, f := range h.Type.Params.List {
+					if len(f.Names) == 0 {
+						j++
+						continue
+					}
+					for _, n := range f.Names {
+						if j < len(paramObjList) && paramObjList[j] != nil {
+							c.headerObj[n.Name] = paramObjList[j]
+						}
+						j++
+					}
+				}
 			}
 		} else {
 			// for literals the header names the enclosing function; the
